@@ -15,6 +15,11 @@ import XotModel.Model.Names
 namespace XotModel
 open Gen
 
+/-- The value of a successful outcome. -/
+def Outcome.okValue? {ε α : Type} : Outcome ε α → Option α
+  | .ok a => some a
+  | _ => none
+
 /-- `format!` with the literal split at its `{}` placeholders. -/
 def fmt : List Str → List Str → Str
   | [], _ => []
